@@ -37,6 +37,7 @@ type AssertFail struct {
 	Choices []int
 	Labels  []string
 	Entry   string
+	UFChoice bool // found on a path that is not realisable with the real signature function
 	Fingerprint string
 }
 
